@@ -186,10 +186,12 @@ def drift_case(rng, horizon_steps=64, dt0=1e-3, gen=None):
   from brax.io import mjcf
   o = dict(n_links=(1, 4), limits=0.0, damping=0.0, actuators=(0, 0), stiffness=0.4,
            custom={'matrix_inv_iterations': 0}, timestep=dt0)
-  o.update({k: v for k, v in (gen or {}).items() if k != 'q_range'})
+  o.update({k: v for k, v in (gen or {}).items() if k not in ('q_range', 'slow_root')})
   xml, meta = modelgen.gen_model(rng, **o)
   sys0 = mjcf.loads(xml)
   q, qd = modelgen.rand_state(rng, sys0, q_range=(gen or {}).get('q_range', 1.0), qd_range=1.0)
+  if (gen or {}).get('slow_root') and sys0.link_types[0] == 'f':
+    qd[3:6] *= (gen or {})['slow_root']       # a slowly tumbling free root (|w| dt far below every small-angle guard)
   drifts = []
   e0 = None
   for lvl in range(3):
@@ -225,7 +227,9 @@ def drift_cases(ctx, n, seed_offset=0):
   twins += [dict(n_links=(3, 3), stack=(1, 1), roots='free', topology=t) for t in ('chain', 'star')]
   # one model with springs on every joint started far from the rest position (|q| up to 5: beyond half a turn / 3 m)
   far = [dict(n_links=(1, 2), stack=(1, 2), roots='world', stiffness=1.0, q_range=5.0)]
-  gens = twins + far + [None] * max(0, n - len(twins) - len(far))
+  # a free-floating articulated model whose root tumbles slowly (|w| ~ 0.05 rad/s)
+  slow = [dict(n_links=(2, 3), stack=(1, 1), roots='free', topology='chain', slow_root=0.05)]
+  gens = twins + far + slow + [None] * max(0, n - len(twins) - len(far) - len(slow))
   for g in gens:
     c = drift_case(rng, gen=g)
     cases.append(c)
@@ -239,7 +243,7 @@ def correspond(ctx):
   n, dis, meta = spring_cases(ctx, ctx.budget(12, 120), ctx.budget(60, 300))
   n2, dis2, meta2 = lin_cases(ctx, ctx.budget(8, 80), ctx.budget(40, 200))
   n += n2; dis += dis2
-  cases, fails = drift_cases(ctx, ctx.budget(6, 40))
+  cases, fails = drift_cases(ctx, ctx.budget(7, 40))
   return dict(
       evaluations=n + len(cases), distinct_nontrivial=n + len({c['types'] for c in cases}),
       rule='(a) one-dof spring models (random unit axis, body orientation, mass, armature, stiffness, damping or not, '
